@@ -45,7 +45,7 @@ CONSTANTS
   Nil = "nil"
   Invalid = "invalid"
   Reqs = {"r1", "r2"}
-  Writers = {"w1", "w2"}
+  Writers = {%(writers)s}
   Host = "r1"
   Nested = {"w2"}
   MBug = "none"
@@ -63,8 +63,13 @@ def lock_model(c):
     started call returns; three lock-level twins must be rejected, each for its own reason."""
     acts = ["ReqStart", "WStart", "ReadLock", "ReadState", "ReadUnlock", "ReqHeader", "ReqEmit", "ConfigRender", "ReconfValidate",
             "WriteAnnounce", "WriteAcquire", "WriteState", "WriteUnlock"]
-    mk = lambda bug, checks=LOCK_SAFETY, spec="Spec", cfgs='"A", "B"': LOCK_CFG % dict(bug=bug, checks=checks, spec=spec, cfgs=cfgs)
-    c.parallel([
+    mk = lambda bug, checks=LOCK_SAFETY, spec="Spec", cfgs='"A", "B"', writers='"w1", "w2"': LOCK_CFG % dict(
+        bug=bug, checks=checks, spec=spec, cfgs=cfgs, writers=writers)
+    big = []
+    if c.tier == "thorough" and c.pid == "C07":
+        # a third, free writer next to the nested one (the recursive-read-lock constellation): 13 782 726 distinct states, 8 min at 8 workers
+        big = [lambda: c.model_check("MwLock", mk("none", writers='"w1", "w2", "w3"'), tag="MwLock_3writers", workers=8, timeout=3000)]
+    c.parallel(big + [
         lambda: c.model_check("MwLock", mk("none"), tag="MwLock_" + c.pid, workers=6, must_cover=acts),
         lambda: c.model_check("MwLock", mk("none", "PROPERTIES Termination", "FairSpec", '"A"'), tag="MwLock_live_" + c.pid, workers=4),
         lambda: c.negative_twin("MwLock", mk("holdAcross"), tag="MwLock_neg_holdAcross", expect=["LockFreeOutside"], workers=2),
